@@ -338,7 +338,7 @@ func (c *Ctx) bstAgreement(info *types.Info, ins, srch *ast.FuncDecl) {
 	var insIf *ast.IfStmt
 	ast.Inspect(ins.Body, func(n ast.Node) bool {
 		if f, ok := n.(*ast.ForStmt); ok {
-			for _, s := range f.Body.List {
+			for _, s := range elseFromContinue(f.Body.List) {
 				if is, ok := s.(*ast.IfStmt); ok && is.Else != nil && insIf == nil {
 					insIf = is
 				}
@@ -379,7 +379,7 @@ func (c *Ctx) bstAgreement(info *types.Info, ins, srch *ast.FuncDecl) {
 			if f.Cond != nil {
 				conj(f.Cond)
 			}
-			for _, s := range f.Body.List {
+			for _, s := range elseFromContinue(f.Body.List) {
 				is, ok := s.(*ast.IfStmt)
 				if !ok {
 					continue
@@ -1351,4 +1351,25 @@ func evalRingBool(e sym.Expr, env map[string]sym.Expr) (bool, bool) {
 		return evalRingBool(x.B, env)
 	}
 	return false, false
+}
+
+// elseFromContinue: in the statement list of a loop body, `if c { A; continue }` followed by R is
+// `if c { A } else { R }`; the list is returned in that form (the nodes of A and R are shared).
+func elseFromContinue(list []ast.Stmt) []ast.Stmt {
+	for i, s := range list {
+		is, ok := s.(*ast.IfStmt)
+		if !ok || is.Else != nil || is.Init != nil || len(is.Body.List) < 2 || i == len(list)-1 {
+			continue
+		}
+		b, isB := is.Body.List[len(is.Body.List)-1].(*ast.BranchStmt)
+		if !isB || b.Tok != token.CONTINUE || b.Label != nil {
+			continue
+		}
+		rest := elseFromContinue(list[i+1:])
+		both := &ast.IfStmt{If: is.If, Cond: is.Cond,
+			Body: &ast.BlockStmt{Lbrace: is.Body.Lbrace, List: is.Body.List[:len(is.Body.List)-1], Rbrace: is.Body.Rbrace},
+			Else: &ast.BlockStmt{Lbrace: rest[0].Pos(), List: rest, Rbrace: rest[len(rest)-1].End()}}
+		return append(append([]ast.Stmt{}, list[:i]...), both)
+	}
+	return list
 }
